@@ -31,6 +31,9 @@ var exprFaults = []exprFault{
 	{"intand", "x && b", true, "false", "logic"},
 	{"ifaceadd", "fi() + 1", false, "false", "arithmetic"},
 	{"boom", "boom()", false, "false", "call"},
+	{"boomint", "boomint()", false, "false", "call"},
+	{"boomstruct", "boomstruct()", false, "false", "call"},
+	{"boomslice", "d.BoomSlice()", false, "false", "call"},
 	{"noargs", "f1()", false, "false", "call"},
 	{"strarg", "f1(\"s\")", false, "false", "call"},
 	{"nilfield", "np.I", false, "!npnil", "nil"},
@@ -79,6 +82,11 @@ var stmtFaults = []stmtFault{
 	{"break", " break§", "false", false, false},
 	{"continue", " continue§", "false", false, false},
 	{"foreverfor", " for i = 0; i < 1; i += 0 {§\n }", "false", false, true},
+	{"forevercontinue", " for i = 0; i >= 0; i += 1 {§\n  continue\n }", "false", false, true},
+	{"foreverifcontinue", " for i = 0; i < 1; i += 0 {§\n  if x == 7 {\n   continue\n  }\n  y = 1\n }", "false", false, true},
+	{"foreverbody", " for i = 0; i < 1; i += 0 {§\n  y = i\n }", "false", false, true},
+	{"boomintstmt", " boomint()§", "false", true, false},
+	{"boomerrstmt", " boomerr()§", "false", true, false},
 	{"rangeint", " forRange k := x {§\n }", "false", false, false},
 	{"rangemissing", " forRange k := nosuch {§\n }", "false", false, false},
 	{"nilmapwrite", " d.NM[\"k\"] = 1§", "false", true, false},
@@ -110,6 +118,11 @@ type CD struct {
 }
 
 func (c *CD) PM(a int64) int64 { return c.I + a }
+func (c *CD) BoomSlice() int64 { panic([]string{"a", "b"}) }
+
+type errBoom struct{}
+
+func (errBoom) Error() string { return "boom error" }
 func (c *CD) PB(a bool) int64  { return c.I }
 
 type world struct {
@@ -133,6 +146,9 @@ func mkWorld() *world {
 	w.dc.Add("f1", func(a int64) int64 { return a })
 	w.dc.Add("fb", func(a bool) int64 { return 1 })
 	w.dc.Add("boom", func() int64 { panic("boom") })
+	w.dc.Add("boomint", func() int64 { panic(42) })
+	w.dc.Add("boomstruct", func() int64 { panic(In{A: 7}) })
+	w.dc.Add("boomerr", func() int64 { panic(errBoom{}) })
 	w.dc.Add("dd", &CD{I: 2, P: &In{A: 1}})
 	w.set(w.z, w.ix, w.npnil, w.pnil)
 	return w
@@ -233,7 +249,7 @@ func allFaultCases(tier string) []faultCase {
 			if f.id == "zerodiv" && p.id == "forstep" {
 				continue // a symbolic zero step makes the 10000-iteration cut-off loop symbolic: outside the bound
 			}
-			if tier != "thorough" && !(p.id == "assign" || p.id == "if" || p.id == "return" || strings.HasPrefix(p.id, "conc") || f.id == "zerodiv" || f.id == "ifaceadd" || f.id == "boom" || f.id == "index") {
+			if tier != "thorough" && !(p.id == "assign" || p.id == "if" || p.id == "return" || strings.HasPrefix(p.id, "conc") || f.id == "zerodiv" || f.id == "ifaceadd" || f.id == "boom" || f.id == "boomint" || f.id == "index") {
 				continue // quick: every fault at four positions, four faults at every position
 			}
 			stmt := strings.Replace(tpl, "%E", f.expr+"§", 1)
@@ -304,8 +320,8 @@ func genC09(tier string, seed int64) (*Family, error) {
 				if !(strings.HasSuffix(fc.id, "_assign") || strings.HasSuffix(fc.id, "_if") || strings.HasSuffix(fc.id, "_return") || fc.class == "stmt" && !strings.HasSuffix(fc.id, "_inif")) {
 					continue
 				}
-				if tier != "thorough" && fc.hang && mi > 2 {
-					continue
+				if fc.hang && (mi > 2 || tier != "thorough" && mi > 1) {
+					continue // the 10000-iteration runs are slow: sort, stop-tag [and concurrent] only
 				}
 				if tier != "thorough" && mi > 2 && !(fc.id == "zerodiv_assign" || fc.id == "notint_if" || fc.id == "ifaceadd_if" || fc.id == "missing_return" || fc.id == "ifint" || fc.id == "break" || fc.id == "rangeint" || fc.id == "nilmapwrite" || fc.id == "index_assign" || fc.id == "nilfield_if") {
 					continue
